@@ -101,6 +101,7 @@ Verdict runC18(const Case &cs) {
     // replay of the listed finding: yaep_free_tree on the tree of the 2n input, in a grandchild
     pid_t pid = fork();
     if (pid == 0) {
+      reattachReports();
       Binding *bb = newCBinding(); bb->create();
       GramDef gd; gd.use_text = true; gd.text = famText((int)cs.P("family")); gd.strict = 1;
       defineGrammar(*bb, gd);
